@@ -28,6 +28,20 @@ type levelLoop struct {
 	sx      *core.Symx
 	problem string
 	hPhi *ssa.Phi // the loop-carried counter (== h, or h-1 in the range form)
+	maskForm bool // the loop carries mask = 1<<h instead of h (top-down only)
+}
+
+// isShiftedMask: a loop Phi whose back edge is the Phi itself shifted right by one.
+func isShiftedMask(p *ssa.Phi) bool {
+	for k, e := range p.Edges {
+		if !p.Block().Dominates(p.Block().Preds[k]) {
+			continue
+		}
+		if shr, ok := stripConv(e).(*ssa.BinOp); ok && shr.Op == token.SHR && stripConv(shr.X) == ssa.Value(p) && constIs(shr.Y, 1) {
+			return true
+		}
+	}
+	return false
 }
 
 func stripConv(v ssa.Value) ssa.Value {
@@ -81,10 +95,27 @@ func findLevelLoop(fn *ssa.Function) *levelLoop {
 				setWhenTrue, okForm = false, true
 			}
 		}
+		maskForm := false
+		if !okForm {
+			// `idx & mask` with a loop-carried one-bit mask that is shifted right once per level (mask = 1<<h, descending)
+			for _, pr := range [][2]ssa.Value{{and.X, and.Y}, {and.Y, and.X}} {
+				mp, isPhi := stripConv(pr[1]).(*ssa.Phi)
+				if !isPhi || !isShiftedMask(mp) {
+					continue
+				}
+				idx, h = pr[0], mp
+				switch {
+				case (cmp.Op == token.GTR || cmp.Op == token.NEQ) && constIs(cmp.Y, 0):
+					setWhenTrue, okForm, maskForm = true, true, true
+				case cmp.Op == token.EQL && constIs(cmp.Y, 0):
+					setWhenTrue, okForm, maskForm = false, true, true
+				}
+			}
+		}
 		if !okForm {
 			continue
 		}
-		ll := &levelLoop{fn: fn, iff: iff, idx: stripConv(idx), h: stripConv(h)}
+		ll := &levelLoop{fn: fn, iff: iff, idx: stripConv(idx), h: stripConv(h), maskForm: maskForm}
 		condTrueIsSet := setWhenTrue == pos
 		if condTrueIsSet {
 			ll.setBlk, ll.clrBlk = b.Succs[0], b.Succs[1]
@@ -167,6 +198,11 @@ func (ll *levelLoop) loopRange() (string, bool) {
 	if iff, ok := hp.Block().Instrs[len(hp.Block().Instrs)-1].(*ssa.If); ok {
 		bound = sx.Of(iff.Cond).String()
 	}
+	if ll.maskForm {
+		// mask = 1<<31, 1<<30, …, 1: the 32 levels top-down; the loop ends when the bit is shifted out
+		ok := constIs(init, 1<<31) && sx.Of(step).String() == "(H >> const(1))" && (bound == "(H != const(0))" || bound == "(H > const(0))")
+		return fmt.Sprintf("mask form: init=%s step=%s bound=%s", sx.Of(init), sx.Of(step), bound), ok
+	}
 	desc := fmt.Sprintf("init=%s step=%s bound=%s", sx.Of(init), sx.Of(step), bound)
 	up := constIs(init, 0) && sx.Of(step).String() == "(H + const(1))" && bound == "(H < const(32))"
 	down := constIs(init, 31) && sx.Of(step).String() == "(H - const(1))" && bound == "(H >= const(0))"
@@ -237,6 +273,20 @@ func (ll *levelLoop) builderStep(hashCallee string, setArr, clrArr []string) (st
 			strip := func(v ssa.Value) ssa.Value {
 				if c, isC := v.(*ssa.Call); isC && strings.HasSuffix(core.CallName(c), "common.Hash).Bytes") {
 					return c.Call.Args[0]
+				}
+				// x[:] of a local copy that is written once (`left := a; … left[:]`)
+				if sl, isS := v.(*ssa.Slice); isS && sl.Low == nil && sl.High == nil {
+					if al, isA := sl.X.(*ssa.Alloc); isA {
+						var stored []ssa.Value
+						for _, r := range *al.Referrers() {
+							if st, isSt := r.(*ssa.Store); isSt && st.Addr == ssa.Value(al) {
+								stored = append(stored, st.Val)
+							}
+						}
+						if len(stored) == 1 {
+							return stored[0]
+						}
+					}
 				}
 				return v
 			}
@@ -380,7 +430,11 @@ func (ll *levelLoop) storesInto(side *ssa.BasicBlock) []string {
 		onSide := side == nil || inSide(b, side) && len(side.Preds) == 1
 		// a store after the two edges merged again carries a Phi: it counts for a side with the operand of that side
 		merged := side != nil && !onSide && ll.iff.Block().Dominates(b) && !(len(other.Preds) == 1 && inSide(b, other)) && b != ll.iff.Block()
-		if !onSide && !merged {
+		// a merge that is also reached around the bit test (the `(zero, err)` exit of an expanded helper): accepted when
+		// every operand of the stored Phi that does not come from one of the two sides cannot reach the store
+		around := side != nil && !onSide && !merged && !ll.iff.Block().Dominates(b) && b != ll.iff.Block() &&
+			!(len(other.Preds) == 1 && inSide(b, other)) && !(len(side.Preds) == 1 && inSide(b, side))
+		if !onSide && !merged && !around {
 			continue
 		}
 		for _, ins := range b.Instrs {
@@ -396,7 +450,29 @@ func (ll *levelLoop) storesInto(side *ssa.BasicBlock) []string {
 				continue
 			}
 			val := st.Val
-			if merged {
+			if around {
+				phi, isPhi := val.(*ssa.Phi)
+				if !isPhi {
+					continue
+				}
+				okAll := true
+				for k := range phi.Edges {
+					pb := phi.Block().Preds[k]
+					fromSide := func(sd *ssa.BasicBlock) bool {
+						return pb == ll.iff.Block() && phi.Block() == sd || len(sd.Preds) == 1 && inSide(pb, sd)
+					}
+					if fromSide(ll.setBlk) || fromSide(ll.clrBlk) {
+						continue
+					}
+					if core.PhiEdgeReaches(phi, k, func(x ssa.Instruction) bool { return x == ins }) {
+						okAll = false
+					}
+				}
+				if !okAll {
+					continue
+				}
+			}
+			if merged || around {
 				r := ll.resolveSide(val, side, 0)
 				if r == val {
 					continue // not decided by the bit test
@@ -475,8 +551,14 @@ func treeGetSiblings(c *core.Ctx, rule string) {
 		for _, w := range ll.storesInto(nil) {
 			if strings.HasSuffix(w, "<- t.zeroHashes[H]") {
 				okZ = false
-				nf := core.TermEdges(ll.fn, ll.sx, func(s string, _ *core.Term) bool {
-					return strings.HasPrefix(s, "errors.Is((*tree.Tree).getRHTNode(t, tx, CUR)#1, db.ErrNotFound)")
+				nf := core.TermEdges(ll.fn, ll.sx, func(s string, t *core.Term) bool {
+					if strings.HasPrefix(s, "errors.Is((*tree.Tree).getRHTNode(t, tx, CUR)#1, db.ErrNotFound)") {
+						return true
+					}
+					// the error travelled through a merge with nil placeholders: errors.Is(nil, …) is false, so on the true
+					// edge the operand is the lookup's error
+					return t != nil && t.Op == "call" && t.Name == "errors.Is" && len(t.Args) == 2 &&
+						core.NonNilAlts(t.Args[0]).String() == "(*tree.Tree).getRHTNode(t, tx, CUR)#1" && t.Args[1].String() == "db.ErrNotFound"
 				}, true)
 				var zst ssa.Instruction
 				core.Instrs(ll.fn, func(i ssa.Instruction) {
